@@ -138,4 +138,43 @@ fn c09_weighted(directed: bool, multi: bool, s: u8) {
     core::mem::forget(sh);
 }
 
+/// Two-node graphs: degree_centrality is degree/(n-1) = degree, density with n = 2.
+fn c09_small(directed: bool, multi: bool, s: u8) {
+    let w = any_small_weight();
+    let nodes: Vec<(u8, Option<u8>)> = vec![(2, None), (0, None)];
+    let edges: Vec<(u8, u8, f64)> = match s {
+        0 => vec![(2, 0, w)],
+        1 => vec![],
+        _ => vec![(2, 2, w)],
+    };
+    let g = build_direct(permissive(directed, multi), &nodes, &edges);
+    let sh = Shape { nodes, edges };
+    let cent = degree_centrality(&g);
+    vassert!(cent.len() == 2, "degree_centrality has one entry per node");
+    let names = [2u8, 0];
+    let mut sd = 0;
+    let mut i = 0;
+    while i < 2 {
+        let (d, di, dout) = deg_oracle(&sh, names[i]);
+        vassert!(g.get_node_degree(Nm(names[i])) == Some(d), "get_node_degree");
+        vassert!(cent.get(&Nm(names[i])) == Some(&(d as f64)), "degree_centrality is degree/(n-1)");
+        if directed {
+            vassert!(g.get_node_in_degree(Nm(names[i])) == Some(di) && g.get_node_out_degree(Nm(names[i])) == Some(dout), "in- and out-degree");
+        }
+        sd += d;
+        i += 1;
+    }
+    vassert!(sd == 2 * sh.edges.len(), "handshake: degrees sum to twice the number of edges");
+    vassert!(g.number_of_edges() == sh.edges.len() && g.number_of_nodes() == 2, "counts");
+    if !multi && s != 2 {
+        let m = sh.edges.len() as f64;
+        let want = if directed { m / 2.0 } else { 2.0 * m / 2.0 };
+        vassert!(g.get_density() == want, "density of a single-edge graph");
+    }
+    vcover!(true, "reached end");
+    core::mem::forget(cent);
+    core::mem::forget(g);
+    core::mem::forget(sh);
+}
+
 include!("gen_degree_ac.rs");
